@@ -48,6 +48,10 @@ meta = {
  "our_checks": json.loads("[" + results + "]"),
  "ran": "tools/ingest_seed.sh %s %s %s" % (pid, v, extra)
 }
+try:
+    old = json.load(open(dst + '/meta.json'))
+    if old.get('note'): meta['note'] = old['note']      # hand-written classification survives a re-run
+except Exception: pass
 json.dump(meta, open(dst + '/meta.json', 'w'), indent=1)
 PYEOF
 rm -rf $S /tmp/vf_seed_bld.$$
